@@ -863,10 +863,15 @@ func (x *wireExtractor) call(call *ast.CallExpr) []wireItem {
 			}
 			return nil
 		case x.forwardsRead(call):
-			if x.rawReads[call] {
-				return mk("RAW", "")
+			// what the helper decodes itself before it hands on its last read, then that read
+			var out []wireItem
+			if fn.Pkg() == x.c.Root.Types && !wireBoundary[declName(fn)] {
+				out = append(out, x.sigOf(fn)...)
 			}
-			return nil
+			if x.rawReads[call] {
+				out = append(out, wireItem{Kind: "RAW", pos: at})
+			}
+			return out
 		}
 	}
 	// inline in-package callees that are pure emitters/decoders of part of the caller's record
